@@ -217,7 +217,69 @@ def eval_invariants(doc, checks, skip_jumped=False):
 
 
 # ----------------------------------------------------------------------------- C02 .. C05, C09
+def detour_doc(rng, latlon_p=0.6):
+    """A one-way road that leaves the line of travel, makes a loop of short roads and comes back; the observations
+    stay on the line of travel and are close together, so the loop can only be followed through a long run of
+    non-emitting states whose roads lie far from the observation segment and lead away from it."""
+    latlon = rng.random() < latlon_p
+    d = base_doc(rng, "single", latlon_p=0.0, sqlite_p=0.0, pickle_p=0.0, big_p=0.0,
+                 cfg_kw={"ne": True, "width": False, "second_order": rng.random() < 0.3},
+                 world_kw={"labels": "int", "n": 3}, fault_kinds=("dup", "clock"))
+    unit = 20.0 if latlon else 1.0
+    h = rng.randint(2, 3)
+    gap = rng.choice([0.3, 0.5, 1.0])
+    pts = [(0.0, -2.0), (0.0, 1.0)] + [(float(i), 1.0) for i in range(1, h + 1)] + \
+          [(float(i), 1.0 + gap) for i in range(h, 0, -1)] + [(0.0, 1.0 + gap), (0.0, 4.0 + gap)]
+    if rng.random() < 0.5:
+        pts = [(y + rng.uniform(-0.1, 0.1), x + rng.uniform(-0.1, 0.1)) for y, x in pts]
+    labs = rng.sample(range(0, 90), len(pts))
+    nodes = []
+    for i, (y, x) in enumerate(pts):
+        nb = [labs[i + 1]] if i + 1 < len(pts) else []
+        if i > 0 and rng.random() < 0.4:
+            nb.append(labs[i - 1])          # some roads are two-way
+        nodes.append([labs[i], [round(y * unit, 3), round(x * unit, 3)], nb])
+    world = {"latlon": False, "shape": "detour", "unit": unit, "nodes": nodes, "linked": []}
+    trace = [[rng.uniform(-0.1, 0.1) * unit, -1.0 * unit], [rng.uniform(-0.1, 0.1) * unit, (1.0 + gap / 2) * unit],
+             [rng.uniform(-0.1, 0.1) * unit, (3.0 + gap) * unit]]
+    if rng.random() < 0.5:
+        trace.pop(1)
+    close = rng.random() < 0.6
+    if close:
+        # observations close together, right before the road leaves and right after it has come back: the roads of
+        # the loop are farther from the observation segment than their own length plus the length of that segment
+        trace = [[rng.uniform(-0.05, 0.05) * unit, 0.8 * unit], [rng.uniform(-0.05, 0.05) * unit, (1.2 + gap) * unit]]
+    if latlon:
+        world, trace = gen.to_latlon(world, trace, rng.uniform(-58, 58), rng.uniform(-170, 170))
+        world["unit"] = unit
+    cfg = d["cfg"]
+    for k in ("max_dist", "max_dist_init", "min_prob_norm", "max_lattice_width"):
+        cfg.pop(k, None)
+    cfg["non_emitting_states"] = True
+    cfg["only_edges"] = True
+    cfg["obs_noise"] = unit * rng.choice([0.25, 0.35, 0.5])
+    cfg.pop("obs_noise_ne", None)
+    if cfg["family"] == "distance":
+        cfg["dist_noise"] = cfg["obs_noise"] * rng.choice([1.0, 3.0])
+        cfg.pop("dist_noise_ne", None)
+        cfg["restrained_ne"] = False
+    cfg["ne_maxnb"] = 100
+    if close:
+        cfg["max_dist_init"] = 0.35 * unit
+        cfg["obs_noise_ne"] = 3.0 * unit
+        cfg["non_emitting_length_factor"] = 0.95
+        if cfg["family"] == "distance":
+            cfg["dist_noise_ne"] = 10.0 * unit
+    d["world"], d["trace"] = world, trace
+    d.pop("trace2", None)
+    d["ops"] = [{"op": "match", "k": len(trace), "unique": False}]
+    d["faults"].pop("relist", None)
+    return d
+
+
 def gen_C02(rng, tier):
+    if rng.random() < 0.05:
+        return with_debug_log(rng, detour_doc(rng))
     d = base_doc(rng, rng.choice(["single", "extend", "widen", "history", "history"]), latlon_p=0.15,
                  world_kw={"linked_p": 0.15, "zero_len_p": 0.1}, trace_kw={}, antimeridian_p=0.3)
     return with_debug_log(rng, d)
